@@ -319,6 +319,58 @@ Proof.
   destruct (kinv_distinct s h Hi) as (Hnd & _). apply remove1_nodup. exact Hnd.
 Qed.
 
+(** ** many create/delete cycles of one index: the closed form *)
+Definition kst_ext (a b : kst) : Prop :=
+  kfree a = kfree b /\ (forall i, knext a i = knext b i) /\ (forall i, kdtor a i = kdtor b i) /\
+  (forall i, kgen a i = kgen b i).
+
+Lemma one_cycle s h d : in_range (kfree s) ->
+  exists s', seq_hist tagged s h [Create d; Delete (kfree s)] = Some (s', h, [kfree s; d]) /\
+             kst_ext s' (cycle_n tagged s d 1).
+Proof.
+  intros Hr. assert (Hne : kfree s <> NULL) by (unfold in_range, NULL in *; lia).
+  cbn [seq_hist]. rewrite (seq_create_pop s h d Hne).
+  set (k := kfree s) in *.
+  set (s1 := mkK (knext s k) (fupd (knext s) k LIVE) (fupd (kdtor s) k d) (bump tagged s k)).
+  assert (Hl : knext s1 k = LIVE) by (unfold s1; cbn [knext]; apply fupd_same).
+  rewrite (seq_delete_live s1 (k :: h) k Hr Hl). cbn [remove1]. rewrite Z.eqb_refl.
+  eexists. split; [unfold s1; cbn [kdtor]; rewrite fupd_same; reflexivity|].
+  unfold kst_ext, cycle_n, s1. cbn [kfree knext kdtor kgen]. fold k.
+  split; [reflexivity|]. split; [|split].
+  - intros i. unfold fupd. destruct (i =? k) eqn:E; [apply Z.eqb_eq in E; subst; reflexivity|reflexivity].
+  - intros i. reflexivity.
+  - intros i. unfold bump. destruct tagged; reflexivity.
+Qed.
+
+Theorem cycles_closed_form d n : forall s h, in_range (kfree s) ->
+  exists s', seq_hist tagged s h (cyc (kfree s) d (S n)) = Some (s', h, cyc_results (kfree s) d (S n)) /\
+             kst_ext s' (cycle_n tagged s d (Z.of_nat (S n))).
+Proof.
+  induction n as [|n IH]; intros s h Hr.
+  - destruct (one_cycle s h d Hr) as (s' & E & Hx). exists s'. split; [exact E|exact Hx].
+  - destruct (one_cycle s h d Hr) as (s1 & E1 & Hx1).
+    unfold kst_ext, cycle_n in Hx1. cbn [kfree knext kdtor kgen] in Hx1. destruct Hx1 as (Hf & Hn & Hd & Hg).
+    assert (Hr1 : in_range (kfree s1)) by (rewrite Hf; exact Hr).
+    destruct (IH s1 h Hr1) as (s2 & E2 & Hx2).
+    unfold kst_ext, cycle_n in Hx2. cbn [kfree knext kdtor kgen] in Hx2. destruct Hx2 as (Hf2 & Hn2 & Hd2 & Hg2).
+    exists s2. split.
+    + change (cyc (kfree s) d (S (S n))) with (Create d :: Delete (kfree s) :: cyc (kfree s) d (S n)).
+      change (cyc_results (kfree s) d (S (S n))) with (kfree s :: d :: cyc_results (kfree s) d (S n)).
+      cbn [seq_hist] in E1 |- *.
+      destruct (seq_op tagged s h (Create d)) as [[[sa ha] xa]|]; [|discriminate].
+      destruct (seq_op tagged sa ha (Delete (kfree s))) as [[[sb hb] xb]|]; [|discriminate].
+      inversion E1; subst. rewrite <- Hf. rewrite E2. reflexivity.
+    + unfold kst_ext, cycle_n. cbn [kfree knext kdtor kgen].
+      split; [rewrite Hf2; exact Hf|]. split; [intros i; rewrite Hn2; apply Hn|]. split.
+      * intros i. rewrite Hd2, Hf. unfold fupd. destruct (i =? kfree s) eqn:E; [reflexivity|].
+        rewrite Hd. unfold fupd. rewrite E. reflexivity.
+      * intros i. rewrite Hg2. destruct tagged; [|apply Hg].
+        rewrite Hf. unfold fupd. destruct (i =? kfree s) eqn:E.
+        -- rewrite Hg. unfold fupd. rewrite Z.eqb_refl.
+           rewrite Zplus_mod_idemp_l. f_equal. lia.
+        -- rewrite Hg. unfold fupd. rewrite E. reflexivity.
+Qed.
+
 (** ** the interleaving system *)
 Lemma nth_set_nth_same l : forall t p q, nth_error l t = Some q -> nth_error (set_nth l t p) t = Some p.
 Proof.
